@@ -219,9 +219,19 @@ def irregular_containers(points, coef, as_tuples):
     (15000) seeded point sets, generated polynomial functions."""
     import autoarray as aa
     vals = [tuple(map(float, q)) for q in points] if as_tuples else points.copy()
-    grid = aa.Grid2DIrregular(values=vals)
-    p = _profile(aa, coef)
     n = points.shape[0]
+    # "an irregular grid": the class itself and its library subclass (irregular coordinates that remember a uniform origin)
+    for kind in ("Grid2DIrregular", "Grid2DIrregularUniform"):
+        grid = aa.Grid2DIrregular(values=vals) if kind == "Grid2DIrregular" else \
+            aa.Grid2DIrregularUniform(values=vals, shape_native=(3, 3), pixel_scales=(1.0, 1.0))
+        msg = _irregular_one_grid(aa, grid, points, coef, n)
+        if msg:
+            return "%s: %s" % (kind, msg)
+    return None
+
+
+def _irregular_one_grid(aa, grid, points, coef, n):
+    p = _profile(aa, coef)
 
     def one(res, cls, want, label):
         if not isinstance(res, cls):
@@ -320,11 +330,23 @@ def grid1d_projected_line(mask, pixel_scale, origin, coef, angle):
     bound: all 1D masks of length <= 9 (12) + 300 (3000) random of length <= 12, scales, origins, 6 angles."""
     import autoarray as aa
     mk = aa.Mask1D(mask=mask.copy(), pixel_scales=(pixel_scale,), origin=(origin,))
-    grid = aa.Grid1D.from_mask(mask=mk)
-    xs = np.asarray(grid.slim, dtype=float).copy()
+    slim_grid = aa.Grid1D.from_mask(mask=mk)
+    xs = np.asarray(slim_grid.slim, dtype=float).copy()
     n = int((~mask).sum())
     if xs.shape != (n,):
         return None
+    # "a 1D grid": whichever storage form it is held in (slim, native view, native constructor)
+    native_values = np.zeros(mask.shape)
+    native_values[~mask] = xs
+    for form, grid in (("slim-stored", slim_grid), ("grid.native", slim_grid.native),
+                       ("Grid1D(store_native=True)", aa.Grid1D(values=native_values, mask=mk, store_native=True))):
+        msg = _grid1d_one_form(aa, grid, xs, n, mask, pixel_scale, origin, coef, angle)
+        if msg:
+            return "%s Grid1D: %s" % (form, msg)
+    return None
+
+
+def _grid1d_one_form(aa, grid, xs, n, mask, pixel_scale, origin, coef, angle):
     extra = {"centre": (0.0, 0.0)}
     if angle is not None:
         extra["angle"] = angle
